@@ -415,13 +415,75 @@ pub closed spec fn sl_mid(src: A, d: Set<usize>, pf: Pf, g: A, v1: int, j: int) 
     &&& sl_empty_from(g, v1 + 1)
 }
 
+/// g3 has the same present ids as g2 and the same edge lists except (possibly) at x
+pub closed spec fn sl_frame(g2: A, g3: A, x: int) -> bool {
+    &&& g3.tag.len() == g2.tag.len() && g3.edges.len() == g2.edges.len()
+    &&& forall|u: int| 0 <= u < g2.tag.len() ==> (#[trigger] present(g3, u) <==> present(g2, u))
+    &&& forall|u: int| 0 <= u < g2.edges.len() && u != x ==> (#[trigger] g3.edges[u]) == g2.edges[u]
+}
+
+pub proof fn lemma_frame_present_in(g2: A, g3: A, d: Set<usize>, x: int)
+    requires sl_frame(g2, g3, x), sl_present_in(g2, d),
+    ensures sl_present_in(g3, d),
+{
+    assert forall|u: int| 0 <= u < g3.tag.len() && #[trigger] present(g3, u) implies d.contains(u as usize) by {
+        assert(present(g2, u));
+    }
+}
+
+pub proof fn lemma_frame_done_below(src: A, d: Set<usize>, pf: Pf, g2: A, g3: A, n: int, x: int)
+    requires sl_frame(g2, g3, x), sl_done_below(src, d, pf, g2, n), x >= n || x < 0, g2.edges.len() == g2.tag.len(),
+    ensures sl_done_below(src, d, pf, g3, n),
+{
+    assert forall|u: int| 0 <= u < n && u < g3.tag.len() && d.contains(u as usize) implies #[trigger] present(g3, u) && has_accepted(src.edges[u], d, pf, g3.edges[u], u, src.edges[u].len() as int) by {
+        assert(present(g2, u));
+        assert(has_accepted(src.edges[u], d, pf, g2.edges[u], u, src.edges[u].len() as int));
+        assert(g3.edges[u] == g2.edges[u]);
+    }
+}
+
+pub proof fn lemma_frame_only_source(src: A, g2: A, g3: A, x: int, y: int)
+    requires sl_frame(g2, g3, x), sl_only_source_except(src, g2, y), x == y || x < 0, g2.edges.len() == g2.tag.len(),
+    ensures sl_only_source_except(src, g3, y),
+{
+    assert forall|u: int| #![trigger g3.edges[u]] 0 <= u < g3.tag.len() && u != y implies only_source(src.edges[u], g3.edges[u], src.edges[u].len() as int) by {
+        assert(g3.edges[u] == g2.edges[u]);
+        assert(only_source(src.edges[u], g2.edges[u], src.edges[u].len() as int));
+    }
+}
+
+pub proof fn lemma_frame_empty_from(g2: A, g3: A, n: int, x: int)
+    requires sl_frame(g2, g3, x), sl_empty_from(g2, n), x < n, 0 <= n, g2.edges.len() == g2.tag.len(),
+    ensures sl_empty_from(g3, n),
+{
+    assert forall|u: int| n <= u < g3.tag.len() implies #[trigger] g3.edges[u] == Seq::<(Label, usize)>::empty() by {
+        assert(g3.edges[u] == g2.edges[u]);
+        assert(g2.edges[u] == Seq::<(Label, usize)>::empty());
+    }
+}
+
+/// add(w) on a vertex whose edge list is already empty (or which is present) changes no edge list
+pub proof fn lemma_add_frame(g: A, g2: A, w: int, d: Set<usize>)
+    requires
+        0 <= w < g.tag.len(), g.edges.len() == g.tag.len(), add_content(g, g2, w), add_tags(g, g2, w),
+        g.tag[w] == 0 ==> g.edges[w] == Seq::<(Label, usize)>::empty(),
+    ensures
+        g2.edges =~= g.edges, g2.tag.len() == g.tag.len(), g2.edges.len() == g.edges.len(), present(g2, w),
+        forall|u: int| 0 <= u < g.tag.len() && u != w ==> (#[trigger] present(g2, u) <==> present(g, u)),
+{
+}
+
 pub proof fn lemma_sl_init(src: A, d: Set<usize>, pf: Pf, g: A)
     requires empty_graph(g, src.tag.len() as int), src.edges.len() == src.tag.len(), src.tag.len() <= usize::MAX,
     ensures sl_inv(src, d, pf, g, 0),
 {
-    assert forall|u: int| #![trigger g.edges[u]] 0 <= u < g.tag.len() implies only_source(src.edges[u], g.edges[u], src.edges[u].len() as int) by {
+    assert forall|u: int| #![trigger g.edges[u]] 0 <= u < g.tag.len() && u != -1 implies only_source(src.edges[u], g.edges[u], src.edges[u].len() as int) by {
         assert(g.edges[u] == Seq::<(Label, usize)>::empty());
     }
+    assert(sl_only_source_except(src, g, -1));
+    assert(sl_present_in(g, d));
+    assert(sl_done_below(src, d, pf, g, 0));
+    assert(sl_empty_from(g, 0));
 }
 
 /// the filter skipped the ids in [upto, v1) (not kept) and yields the kept id v1, which is then added
@@ -433,18 +495,34 @@ pub proof fn lemma_sl_enter(src: A, d: Set<usize>, pf: Pf, g: A, g2: A, upto: in
     ensures sl_mid(src, d, pf, g2, v1, 0),
 {
     assert(g.edges[v1] == Seq::<(Label, usize)>::empty());
-    assert(g2.edges =~= g.edges);
-    assert forall|u: int| 0 <= u < g2.tag.len() && #[trigger] present(g2, u) implies d.contains(u as usize) by {
-        if u != v1 { assert(present(g, u)); }
+    lemma_add_frame(g, g2, v1, d);
+    // present ids: the old ones plus v1, which is kept
+    assert(sl_present_in(g2, d)) by {
+        assert forall|u: int| 0 <= u < g2.tag.len() && #[trigger] present(g2, u) implies d.contains(u as usize) by {
+            if u != v1 { assert(present(g, u)); }
+        }
     }
-    assert forall|u: int| 0 <= u < v1 && d.contains(u as usize) implies #[trigger] present(g2, u) && has_accepted(src.edges[u], d, pf, g2.edges[u], u, src.edges[u].len() as int) by {
-        assert(u < upto) by { if u >= upto { assert(!d.contains(u as usize)); } }
-        assert(present(g, u));
-        assert(has_accepted(src.edges[u], d, pf, g.edges[u], u, src.edges[u].len() as int));
+    // kept ids below v1 are below upto (the filter skipped [upto, v1))
+    assert(sl_done_below(src, d, pf, g2, v1)) by {
+        assert forall|u: int| 0 <= u < v1 && u < g2.tag.len() && d.contains(u as usize) implies #[trigger] present(g2, u) && has_accepted(src.edges[u], d, pf, g2.edges[u], u, src.edges[u].len() as int) by {
+            assert(u < upto) by { if u >= upto { assert(!d.contains(u as usize)); } }
+            assert(present(g, u));
+            assert(has_accepted(src.edges[u], d, pf, g.edges[u], u, src.edges[u].len() as int));
+        }
     }
-    assert forall|u: int| #![trigger g2.edges[u]] 0 <= u < g2.tag.len() && u != v1 implies only_source(src.edges[u], g2.edges[u], src.edges[u].len() as int) by {
-        assert(only_source(src.edges[u], g.edges[u], src.edges[u].len() as int));
+    assert(sl_only_source_except(src, g2, v1)) by {
+        assert forall|u: int| #![trigger g2.edges[u]] 0 <= u < g2.tag.len() && u != v1 implies only_source(src.edges[u], g2.edges[u], src.edges[u].len() as int) by {
+            assert(g.edges[u] == g2.edges[u]);
+            assert(only_source(src.edges[u], g.edges[u], src.edges[u].len() as int));
+        }
     }
+    assert(sl_empty_from(g2, v1 + 1)) by {
+        assert forall|u: int| v1 + 1 <= u < g2.tag.len() implies #[trigger] g2.edges[u] == Seq::<(Label, usize)>::empty() by {
+            assert(g.edges[u] == Seq::<(Label, usize)>::empty());
+        }
+    }
+    assert(has_accepted(src.edges[v1], d, pf, g2.edges[v1], v1, 0));
+    assert(only_source(src.edges[v1], g2.edges[v1], 0)) by { assert(g2.edges[v1].len() == 0); }
 }
 
 /// source edge j of v1 is not copied; allowed when its target is not kept or the edge is not accepted
@@ -467,24 +545,39 @@ pub proof fn lemma_sl_add_target(src: A, d: Set<usize>, pf: Pf, g: A, g2: A, v1:
     ensures sl_mid(src, d, pf, g2, v1, j), present(g2, src.edges[v1][j].1 as int),
 {
     let v2 = src.edges[v1][j].1 as int;
-    // add(v2): either nothing, or v2 becomes present with an empty edge list; a kept id below v1 is present already
-    assert(g.tag[v2] == 0 ==> !(v2 < v1)) by {
-        if g.tag[v2] == 0 && v2 < v1 { assert(present(g, v2)); }
+    // add(v2): either nothing, or v2 becomes present with the empty edge list it already had
+    // (a kept id below v1 is present already; an id above v1 has no edges yet)
+    assert(g.tag[v2] == 0 ==> g.edges[v2] == Seq::<(Label, usize)>::empty()) by {
+        if g.tag[v2] == 0 {
+            if v2 < v1 { assert(!present(g, v2)); assert(sl_done_below(src, d, pf, g, v1)); assert(false); }
+            assert(sl_empty_from(g, v1 + 1));
+        }
     }
-    assert(g2.edges =~= g.edges) by {
-        if g.tag[v2] == 0 { assert(g.edges[v2] == Seq::<(Label, usize)>::empty()); }
+    lemma_add_frame(g, g2, v2, d);
+    assert(sl_present_in(g2, d)) by {
+        assert forall|u: int| 0 <= u < g2.tag.len() && #[trigger] present(g2, u) implies d.contains(u as usize) by {
+            if u != v2 { assert(present(g, u)); }
+        }
     }
-    assert forall|u: int| 0 <= u < g2.tag.len() && #[trigger] present(g2, u) implies d.contains(u as usize) by {
-        if u != v2 { assert(present(g, u)); }
+    assert(sl_done_below(src, d, pf, g2, v1)) by {
+        assert forall|u: int| 0 <= u < v1 && u < g2.tag.len() && d.contains(u as usize) implies #[trigger] present(g2, u) && has_accepted(src.edges[u], d, pf, g2.edges[u], u, src.edges[u].len() as int) by {
+            assert(present(g, u));
+            assert(has_accepted(src.edges[u], d, pf, g.edges[u], u, src.edges[u].len() as int));
+        }
     }
-    assert forall|u: int| 0 <= u < v1 && d.contains(u as usize) implies #[trigger] present(g2, u) && has_accepted(src.edges[u], d, pf, g2.edges[u], u, src.edges[u].len() as int) by {
-        assert(present(g, u));
-        assert(has_accepted(src.edges[u], d, pf, g.edges[u], u, src.edges[u].len() as int));
+    assert(sl_only_source_except(src, g2, v1)) by {
+        assert forall|u: int| #![trigger g2.edges[u]] 0 <= u < g2.tag.len() && u != v1 implies only_source(src.edges[u], g2.edges[u], src.edges[u].len() as int) by {
+            assert(g.edges[u] == g2.edges[u]);
+            assert(only_source(src.edges[u], g.edges[u], src.edges[u].len() as int));
+        }
     }
-    assert forall|u: int| #![trigger g2.edges[u]] 0 <= u < g2.tag.len() && u != v1 implies only_source(src.edges[u], g2.edges[u], src.edges[u].len() as int) by {
-        assert(only_source(src.edges[u], g.edges[u], src.edges[u].len() as int));
+    assert(sl_empty_from(g2, v1 + 1)) by {
+        assert forall|u: int| v1 + 1 <= u < g2.tag.len() implies #[trigger] g2.edges[u] == Seq::<(Label, usize)>::empty() by {
+            assert(g.edges[u] == Seq::<(Label, usize)>::empty());
+        }
     }
     assert(present(g, v1));
+    assert(g2.edges[v1] == g.edges[v1]);
 }
 
 /// second half: bind(v1, v2, k) appends the edge (its label is new among the copied ones) and removes nobody
@@ -503,26 +596,24 @@ pub proof fn lemma_sl_bound(src: A, d: Set<usize>, pf: Pf, g2: A, g3: A, v1: int
     let e2 = g2.edges[v1];
     lemma_fresh_label(se, e2, j);
     assert(present(g2, v1));
+    // the edge list of v1 grows by source edge j; nothing else changes; nobody appears or disappears
     assert(g3.edges[v1] == upsert(e2, k, v2 as usize));
     assert(upsert(e2, k, v2 as usize) == e2.push((k, v2 as usize)));
     assert(se[j] == (k, v2 as usize));
     assert(g3.edges[v1] == e2.push(se[j]));
+    assert(sl_frame(g2, g3, v1)) by {
+        assert(g3.tag.len() == g2.tag.len());
+        assert forall|u: int| 0 <= u < g2.tag.len() implies (#[trigger] present(g3, u) <==> present(g2, u)) by {}
+        assert forall|u: int| 0 <= u < g2.edges.len() && u != v1 implies (#[trigger] g3.edges[u]) == g2.edges[u] by {}
+    }
     lemma_only_source_push(se, e2, j);
     lemma_has_accepted_push(se, d, pf, e2, v1, j);
-    assert(g3.tag.len() == g2.tag.len());
-    assert forall|u: int| 0 <= u < g2.tag.len() implies (#[trigger] present(g3, u) <==> present(g2, u)) by {}
-    assert forall|u: int| 0 <= u < g3.tag.len() && #[trigger] present(g3, u) implies d.contains(u as usize) by {
-        assert(present(g2, u));
-    }
-    assert forall|u: int| 0 <= u < v1 && d.contains(u as usize) implies #[trigger] present(g3, u) && has_accepted(src.edges[u], d, pf, g3.edges[u], u, src.edges[u].len() as int) by {
-        assert(present(g2, u));
-        assert(has_accepted(src.edges[u], d, pf, g2.edges[u], u, src.edges[u].len() as int));
-        assert(g3.edges[u] == g2.edges[u]);
-    }
-    assert forall|u: int| #![trigger g3.edges[u]] 0 <= u < g3.tag.len() && u != v1 implies only_source(src.edges[u], g3.edges[u], src.edges[u].len() as int) by {
-        assert(only_source(src.edges[u], g2.edges[u], src.edges[u].len() as int));
-        assert(g3.edges[u] == g2.edges[u]);
-    }
+    lemma_frame_present_in(g2, g3, d, v1);
+    lemma_frame_done_below(src, d, pf, g2, g3, v1, v1);
+    lemma_frame_only_source(src, g2, g3, v1, v1);
+    lemma_frame_empty_from(g2, g3, v1 + 1, v1);
+    assert(present(g3, v1));
+    assert(g3.edges[v1].len() <= j + 1);
 }
 
 /// all source edges of v1 are done
